@@ -53,11 +53,15 @@ func setup(t ev.TB) bool {
 var nontrivialLabels = []string{"for-3clause", "for-cond", "for-infinite", "range-slice", "range-map", "early-exit", "store-through-pointer", "store-field-through-pointer",
 	"store-field-of-var", "slice-store", "map-insert", "map-delete", "append", "append-slice", "subslice", "closure", "conversion", "shadowing", "address-of-local", "struct-alloc", "recursion", "uint64put", "uint32put", "multi-assign"}
 
+var generatorBugs, programsRun int
+
 func check(t ev.TB, c Case, labels map[string]bool) {
 	ev.Eval()
 	ev.Add("programs", 1)
+	programsRun++
 	rep := tv.Validate(c.Src, runner)
 	if rep.GeneratorBug != "" {
+		generatorBugs++
 		ev.Inconclusive("generator bug")
 		ev.Note("generator bug: %s", firstLine(rep.GeneratorBug))
 		if ev.WantSample() || true {
@@ -136,6 +140,10 @@ func TestDifferential(t *testing.T) {
 		}
 		check(t, Case{Src: p.Source("main")}, labels)
 	})
+	if generatorBugs*20 > programsRun && programsRun > 0 {
+		// more than 5 % unusable programs: the run says little — inconclusive, not a pass
+		t.Fatalf("INCONCLUSIVE: %d of %d generated programs were unusable", generatorBugs, programsRun)
+	}
 }
 
 func TestReplay(t *testing.T) {
